@@ -492,6 +492,7 @@ def gen_op_list(rng, arch, n, big=False, high=False):
 class Rec:
     def __init__(self):
         self.ops = []       # one dict per operation, in generation order
+        self.unmodelled = None   # set when a mechanism the model does not contain rejected the list (block config fit, memory limits)
 
     def cur(self):
         return self.ops[-1]
@@ -509,6 +510,14 @@ def recording():
     o_wait, o_bd, o_abc, o_sc, o_c1 = (g.get_wait_dependency, g.calc_blockdep, g.get_arch_block_config,
                                         g.generate_scaling_for_elementwise, g.CommandStreamEmitter.cmd1_with_offset)
     o_pool = g.generate_ofm_scaling_for_pooling
+    o_lim = g.check_mem_limits
+
+    def w_lim(*a, **k):
+        try:
+            return o_lim(*a, **k)
+        except g.VelaError:
+            rec.unmodelled = "check_mem_limits"                # range check of the memory accesses (C02), not modelled
+            raise
     scale_cmds = {cmd1.NPU_SET_OFM_SCALE: "ofm_scale", cmd1.NPU_SET_OPA_SCALE: "opa_scale", cmd1.NPU_SET_OPB_SCALE: "opb_scale"}
 
     def w_wait(arch, npu_op, *a, **k):
@@ -522,7 +531,11 @@ def recording():
         return r
 
     def w_abc(npu_op, trav, arch):
-        r = o_abc(npu_op, trav, arch)
+        try:
+            r = o_abc(npu_op, trav, arch)
+        except AssertionError:
+            rec.unmodelled = "block_config_does_not_fit"      # try_block_config (C15), not part of the emitter model
+            raise
         rec.cur()["shram"] = (int(r.layout.ib_end), int(r.layout.ab_start), int(r.layout.ib_start2), int(g.acc_format_map[r.acc_type]))
         return r
 
@@ -552,12 +565,14 @@ def recording():
     g.get_wait_dependency, g.calc_blockdep, g.get_arch_block_config = w_wait, w_bd, w_abc
     g.generate_scaling_for_elementwise, g.CommandStreamEmitter.cmd1_with_offset = w_sc, w_c1
     g.generate_ofm_scaling_for_pooling = w_pool
+    g.check_mem_limits = w_lim
     try:
         yield rec
     finally:
         g.get_wait_dependency, g.calc_blockdep, g.get_arch_block_config = o_wait, o_bd, o_abc
         g.generate_scaling_for_elementwise, g.CommandStreamEmitter.cmd1_with_offset = o_sc, o_c1
         g.generate_ofm_scaling_for_pooling = o_pool
+        g.check_mem_limits = o_lim
 
 
 # ------------------------------------------------------------------------------------------------
